@@ -3,14 +3,21 @@ import YowsupVerif.Gen.SendBufCfg
 namespace Yow.Drv
 open Yow.SendBuf
 
-/-- `run <frames: 1+2+3/4+5> <flushes> <sched: 0,1,…>` with the regenerated configuration -/
+/-- `run <frames: 1+2+3/4+5> <flushes> <sched: 0:65536,1:3,…>` with the regenerated configuration; `runcfg <locked> <appendLocked> …` with a given one -/
 def sendBufStep : List String → String
-  | ["cfg"] => s!"locked={Yow.Gen.sendBufCfg.locked}"
-  | ["run", frames, flushes, sched] =>
-    let fs := (frames.splitOn "/").map fun t => (t.splitOn "+").filterMap (·.toNat?)
-    let sc := (sched.splitOn ",").filterMap (·.toNat?)
-    let s := run (init Yow.Gen.sendBufCfg fs (flushes.toNat?.getD 0)) sc
-    s!"finished={finished s} socket={",".intercalate (s.socket.map toString)} buf={",".intercalate (s.buf.map toString)}"
+  | ["cfg"] => s!"locked={Yow.Gen.sendBufCfg.locked} appendLocked={Yow.Gen.sendBufCfg.appendLocked}"
+  | ["run", frames, flushes, sched] => go Yow.Gen.sendBufCfg frames flushes sched
+  | ["runcfg", l, a, frames, flushes, sched] => go { locked := l == "1", appendLocked := a == "1" } frames flushes sched
   | _ => "bad-op"
+where
+  go (cfg : Cfg) (frames flushes sched : String) : String :=
+    let fs := (frames.splitOn "/").map fun t => (t.splitOn "+").filterMap (·.toNat?)
+    let sc := (sched.splitOn ",").filterMap fun t =>
+      match t.splitOn ":" with
+      | [i, c] => (i.toNat?).bind fun i => (c.toNat?).map fun c => (i, c)
+      | [i] => (i.toNat?).map fun i => (i, 65536)
+      | _ => none
+    let s := run (init cfg fs (flushes.toNat?.getD 0)) sc
+    s!"finished={finished s} lock={s.lock.isSome} socket={",".intercalate (s.socket.map toString)} buf={",".intercalate (s.buf.map toString)} appended={",".intercalate (s.appended.map toString)}"
 
 end Yow.Drv
